@@ -82,11 +82,11 @@ Proof. exact destroy_rules. Qed.
 Print Assumptions C17_destroy_rules.
 
 (** Authority: a creation is accepted only if the transaction's signers are exactly the message's
-    authorities and every action's signer is one of them; the stored trigger carries those actions, the
+    authorities and EVERY required signer of every action is one of them; the stored trigger carries those actions, the
     first authority as owner, and a gas limit within the transaction's gas ... *)
 Theorem C17_create_requires_signers : forall h t s sg au ev acts g u s',
   apply_tx h t s (TCreate sg au ev acts g u) = (s', true) ->
-  sg = au /\ (forall a, In a acts -> In (a_from a) au) /\ acts <> [] /\ event_valid_ctx h t ev = true /\
+  sg = au /\ (forall a x, In a acts -> In x (a_signers a) -> In x au) /\ acts <> [] /\ event_valid_ctx h t ev = true /\
   exists owner rest lim,
     au = owner :: rest /\ lim <= MaximumTriggerGas /\ lim <= g /\
     s' = {| reg := reg s ++ [({| t_id := next_id s; t_owner := owner; t_event := ev; t_actions := acts;
@@ -101,7 +101,7 @@ Theorem C17_action_signers : forall b0 bs b s outs s' o,
   run (init b0) bs = (s, outs) -> step s b = (s', o) ->
   forall e ok, In (e, ok) (o_disp o) ->
   In (t_owner (fst e)) (t_auths (fst e)) /\
-  forall a, In a (t_actions (fst e)) -> In (a_from a) (t_auths (fst e)).
+  forall a x, In a (t_actions (fst e)) -> In x (a_signers a) -> In x (t_auths (fst e)).
 Proof. exact action_signers. Qed.
 Print Assumptions C17_action_signers.
 
@@ -116,12 +116,12 @@ Print Assumptions C17_run_is_fold.
     block 8 in that order: the first takes full effect, the second none. *)
 Example C17_witness :
   let b0 : bank_t := fun a => if a =? 1 then 100%Z else 0%Z in
-  let send f t v := {| a_from := f; a_to := t; a_amt := v |} in
+  let send f t v := {| a_from := f; a_to := t; a_amt := v; a_co := [] |} in
   let blk h t txs := {| b_height := h; b_time := t; b_oracle := []; b_txs := txs; b_events := [] |} in
   let bs := [ blk 5 50 [ TCreate [1] [1] (EvTime 70) [send 1 2 10%Z; send 1 3 500%Z] 200000 80000;
                          TCreate [1] [1] (EvHeight 7) [send 1 2 30%Z; send 1 3 5%Z] 200000 80000;
                          TCreate [2] [2] (EvHeight 9) [send 2 1 1%Z] 200000 80000;
-                         TCreate [2] [2] (EvHeight 9) [send 1 2 1%Z] 200000 80000;   (* not signed for *)
+                         TCreate [2] [2] (EvHeight 9) [{| a_from := 2; a_to := 1; a_amt := 0%Z; a_co := [1] |}] 200000 80000; (* co-signer 1 did not sign *)
                          TDestroy 1 3; TDestroy 2 3 ];
               blk 6 60 []; blk 7 70 []; blk 8 80 [TDestroy 1 1] ] in
   let '(s, outs) := run (init b0) bs in
